@@ -23,9 +23,11 @@ func profileFor(name string) *Profile {
 	p := baseProfile(name)
 	switch name {
 	case "C01":
+		p.ModeBEvery, p.InjectP = 4, 0.3
 		p.ClassW["nearmiss"], p.ClassW["canon"] = 8, 70
 		p.W["dust"], p.W["envadmin"] = 8, 5
 	case "C02":
+		p.ModeBEvery, p.InjectP = 4, 0.3
 		p.ScaleW = []int{4, 2, 3, 3}
 		p.W["dust"] = 8
 	case "C04":
@@ -71,10 +73,9 @@ func profileFor(name string) *Profile {
 		p.Shadows = []string{"nodust", "moredust"}
 		p.W["dust"] = 16
 	case "C12":
-		p.SpecialEvery = 5
-		p.Special, p.SpecialReplay = specialC06, replayC06
-		p.NonTrivialCounters = []string{"rule:C12.two-entries"}
+		p.ModeBEvery, p.InjectP = 2, 0.2
 		p.W["restart"] = 3
+		p.Assumptions = []string{"every second run uses the interposed (mode B) node, where a denomination-changing test action is registered under ACTION_SWAP and lone deliveries may get an injected downstream failure"}
 	case "C13":
 		p.Checkpoint = []string{"queries"}
 		p.W["checkpoint"] = 3
@@ -112,6 +113,7 @@ func profileFor(name string) *Profile {
 		p.StepsMin, p.StepsMax = 15, 40
 	case "C03":
 		p.SpecialEvery = 2
+		p.ModeBEvery, p.InjectP = 3, 0.4
 		p.W["envadmin"] = 14
 		p.GasCutP = 0.15
 		p.NonTrivialCounters = []string{"injected_executions", "rule:C03.refund"}
